@@ -80,6 +80,23 @@ def ready_pred(ctx):
         ("unavailable_dependencies[Service].is_empty()=true", desc_is_call(is_empty, on_field("unavailable_dependencies", "Service")), True),
     ]
     for b in r.readiness_predicates():
+        # `unavailable_dependencies.values().all(|set| set.is_empty())`: every kind at once
+        def all_kinds_empty(d, b=b):
+            if not (d[0] == "call" and re.search(r"Iterator>?::all(::<.*>)?$", d[1]) and d[2] and atom_has_field(d[2][0], "unavailable_dependencies", "TargetActorHelper")
+                    and any(c.endswith("::values") or c.endswith("::iter") for c in atom_callres(d[2][0]))):
+                return False
+            if [c for c in atom_callres(d[2][0]) if re.search(RESTRICTING, c)]:
+                return False
+            cbs = closure_bodies_passed(b, b.term(d[3]))
+            if not cbs:
+                return False
+            for cb in cbs:
+                for p_ in enumerate_paths(cb):
+                    ro_ = ret_origins(cb, p_)
+                    if not (ro_ and all(o[0] == "call" and o[1].endswith("::is_empty") for o in ro_)):
+                        return False
+            return True
+        required = required[:2] + [(nm, (lambda d, pd=pd: pd(d) or all_kinds_empty(d)), pol) for (nm, pd, pol) in required[2:4]]
         paths = enumerate_paths(b)
         true_paths_ = []
         for p in paths:
@@ -220,14 +237,26 @@ def pending_bookkeeping(ctx):
                       "a pending dependency is removed outside the Ok handler, not by the message's own kind and target id, or not on every path of the handler")
         if not [m for m in inserts if m[0] in Rinv]:
             ctx.bad(f"{lab}/Invalidated.insert", [a.loc()], "the Invalidated handler does not put the dependency back into the pending set")
+        subs = kind_subregions(a, Rinv, "Invalidated")
+        generic, covered = False, set()
         for (bb, t, meth, at) in inserts:
             arg_at = a.prov.operand_atoms(t["args"][1], interproc=False)
             good = bb in Rinv and msg_field_atoms("Invalidated", "target_id")(arg_at) and msg_field_atoms("Invalidated", "kind")(at)
             # the insert must happen on every path through the handler
             if good:
                 good = _must_pass(a, Rinv, bb)
+                generic = generic or good
+            elif bb in Rinv and msg_field_atoms("Invalidated", "target_id")(arg_at):
+                # one arm per kind (`Invalidated { kind: Build, .. } => ..`): the set is selected by the constant of the arm, on every path of the arm
+                for k, Rk in subs.items():
+                    if k != "*" and bb in Rk and atom_aggs(at, "ExecutionKind") == {k} and _must_pass(a, Rk, bb):
+                        good = True
+                        covered.add(k)
             ctx.check(good, f"{lab}/Invalidated.insert", [site(a, bb)],
                       "a pending dependency is inserted outside the Invalidated handler, not by the message's own kind/target id, or not on every path of the handler")
+        if inserts and not generic and covered and covered != {"Build", "Service"}:
+            ctx.bad(f"{lab}/Invalidated.insert", [a.loc(min(Rinv))], f"only an Invalidated of kind {sorted(covered)} puts the dependency back into the pending set: a dependency of the other kind "
+                    "that went out of date is still taken for available")
     # outside actor bodies: only the constructor may touch the sets
     cons = {b.name for (b, s) in r.bodies_constructing("TargetActorHelper")}
     in_actor_views = set()
@@ -343,6 +372,15 @@ def executed_true_region(body):
                         ex = ("not", inner) if inner[0] == "field" else inner[1]
                 if ex is not None:
                     stores.append((blk["id"], ex))
+    # `executed = true;` - what follows the store (and nothing else can reach) runs under a true `executed`
+    for blk in body.normal_blocks():
+        for st in blk["stmts"]:
+            pr = st["lhs"]["proj"]
+            if pr and pr[-1]["k"] == "field" and pr[-1]["name"] == "executed" and st["rv"]["k"] == "use" and is_const(st["rv"]["op"], "true"):
+                later = body.dominated_by_block(blk["id"]) - {blk["id"]}
+                rewritten = {b2["id"] for b2 in body.normal_blocks() if b2["id"] in later and any(s2["lhs"]["proj"] and s2["lhs"]["proj"][-1]["k"] == "field" and s2["lhs"]["proj"][-1]["name"] == "executed" for s2 in b2["stmts"])}
+                if not rewritten:
+                    out |= later
     for e in body.edges:
         l = e.label
         if l and l[0] == "bool" and l[2] is not None:
@@ -537,7 +575,9 @@ def flag_discipline(ctx):
                 good = True
             elif l is not None and any(d[0] == "field" and d[1] == "to_execute" for d in bool_atom_desc(b, l)):
                 good = True
-        ctx.check(good, f"executed=expr/{short(b.name)}", [site(b, bb)], "`executed` is set to something other than `false` or `!to_execute`: a run invalidated in flight would be announced as done", props=["C01", "C08"])
+        if val == "true" and bb in guard_region(b, desc_is_field_read("to_execute"), False):
+            good = True   # `if self.to_execute { self.executed = false; return }  self.executed = true;` - the same assignment, written as two branches
+        ctx.check(good, f"executed=expr/{short(b.name)}", [site(b, bb)], "`executed` is set to something other than `false` or `!to_execute`: a run invalidated in flight would be announced as done", props=["C01", "C08", "C06"])
     # the start marker also withdraws the previous "done": a run started after an invalidation must not be announced to late requesters through the
     # stale `executed` of the run before it
     for mk in r.start_markers():
